@@ -466,7 +466,7 @@ Definition kstep_ok (rc : Z * Z * Z) (s : kstate) (C0 : list nat) (o : op) (orc 
     k_step kv_fixed rc s o orc = Ok (s', x, ns) /\
     a_step skip_before (rc4s rc) (kabs s C0) o = (kabs s' C0', x', ns) /\
     x = out_wrap x' /\
-    ((SG s' C0' /\ k_iters s' = k_iters s /\
+    ((SG s' C0' /\ k_iters s' = k_iters s /\ k_used s' = k_used s /\
       (forall y n, In y C0 -> dnode s y = Ok n -> sn_ref n <> 1 -> In y C0')) \/ k_alive s' = false).
 
 Lemma sent_key : forall s id, re_key (sent s id) = nkey s id.
@@ -661,13 +661,13 @@ Proof.
         { rewrite (sent_node _ _ _ _ N1 N2). reflexivity. }
         { simpl. rewrite N2. discriminate. }
         { rewrite sent_put_node by (eapply dnode_lt; eauto). rewrite Nat.eqb_refl. rewrite (sent_node _ _ _ _ N1 N2). simpl. rewrite N2. reflexivity. }
-      * left. split; [eapply sgood_put_node; eauto|split; [reflexivity|auto]].
+      * left. split; [eapply sgood_put_node; eauto|split; [reflexivity|split; [reflexivity|auto]]].
     + rewrite (F2 L2). exists s, C0, (ORc e1), (ORc e1), []. repeat split; auto.
   - destruct (sg_hdr _ _ _ _ _ G) as [h [H1 [H2 H3]]]. change (r_subs (kabs s C0)) with (hsubs s). unfold hsubs. unfold HEADER in *. rewrite H1. simpl. rewrite ?H1. simpl.
     destruct (nsub_conflict (sn_subs h) fn ev ud). { exists s, C0, (ORc e3), (ORc e3), []. repeat split; auto. }
     eexists _, C0, (ORc 0), (ORc 0), []. split; [reflexivity|]. split; [|split; [reflexivity|]].
     + f_equal. f_equal. symmetry. erewrite kabs_put_header; eauto.
-    + left. split; [eapply sgood_put_node; eauto|split; [reflexivity|auto]].
+    + left. split; [eapply sgood_put_node; eauto|split; [reflexivity|split; [reflexivity|auto]]].
 Qed.
 
 Lemma kstep_notify_del : forall rc s C0 k fn ev ud, SG s C0 -> kstep_ok rc s C0 (NotifyDel k fn ev ud) [].
@@ -685,13 +685,13 @@ Proof.
         { rewrite (sent_node _ _ _ _ N1 N2). reflexivity. }
         { simpl. rewrite N2. discriminate. }
         { rewrite sent_put_node by (eapply dnode_lt; eauto). rewrite Nat.eqb_refl. rewrite (sent_node _ _ _ _ N1 N2). simpl. rewrite N2. reflexivity. }
-      * left. split; [eapply sgood_put_node; eauto|split; [reflexivity|auto]].
+      * left. split; [eapply sgood_put_node; eauto|split; [reflexivity|split; [reflexivity|auto]]].
     + rewrite (F2 L2). exists s, C0, (ORc e2), (ORc e2), []. repeat split; auto.
   - destruct (sg_hdr _ _ _ _ _ G) as [h [H1 [H2 H3]]]. change (r_subs (kabs s C0)) with (hsubs s). unfold hsubs. unfold HEADER in *. rewrite H1. simpl. rewrite ?H1. simpl.
     destruct (existsb (nsub_match fn ev ud) (sn_subs h)). 2:{ exists s, C0, (ORc e2), (ORc e2), []. repeat split; auto. }
     eexists _, C0, (ORc 0), (ORc 0), []. split; [reflexivity|]. split; [|split; [reflexivity|]].
     + f_equal. f_equal. symmetry. erewrite kabs_put_header; eauto.
-    + left. split; [eapply sgood_put_node; eauto|split; [reflexivity|auto]].
+    + left. split; [eapply sgood_put_node; eauto|split; [reflexivity|split; [reflexivity|auto]]].
 Qed.
 
 (* ---------- canonical position of a key ---------- *)
@@ -1091,7 +1091,7 @@ Proof.
         { simpl. discriminate. }
         { rewrite sent_put_node by auto. rewrite Nat.eqb_refl. simpl. reflexivity. }
       * unfold r_notify. simpl. unfold hsubs. rewrite H1. reflexivity.
-    + left. split; [eapply sgood_put_node; eauto|split; [reflexivity|auto]].
+    + left. split; [eapply sgood_put_node; eauto|split; [reflexivity|split; [reflexivity|auto]]].
   - (* insertion *)
     subst R. cbn beta iota.
     change (find_live (r_ents (kabs s C0)) k) with (find_live (map (sent s) C0) k). rewrite (F2 (AB eq_refl)).
@@ -1119,13 +1119,13 @@ Proof.
                r_used := r_used (kabs s C0); r_alive := r_alive (kabs s C0) |},
             r_notify (kabs s C0) {| re_id := r_next (kabs s C0); re_key := k; re_val := x; re_removed := false; re_subs := [] |} EV_INSERTED k 0%N x) in
          (r', ONone, ns0)) = (kabs s' C0', x', ns) /\ x0 = out_wrap x' /\
-        ((SG s' C0' /\ k_iters s' = k_iters s /\
+        ((SG s' C0' /\ k_iters s' = k_iters s /\ k_used s' = k_used s /\
           (forall y n, In y C0 -> dnode s y = Ok n -> sn_ref n <> 1 -> In y C0')) \/ k_alive s' = false)).
     { intros s1 u1 N1 A1 LEN1 IT1 US1 AL1 LV1 UV1.
       destruct (put_new_tail s C0 s1 u1 k x nl lo hi G RPN E LO HI Hnl N1 A1 LEN1 IT1 US1 AL1 LV1 UV1)
         as [s' [ns [P1 [P2 [P3 [P4 [P5 [P6 [P7 [P8 P9]]]]]]]]]].
       rewrite P1. cbn [bind].
-      exists s', (lo ++ length (k_nodes s) :: hi), ONone, ONone, ns. split; [reflexivity|]. split; [|split; [reflexivity|left; split; auto; split; auto;
+      exists s', (lo ++ length (k_nodes s) :: hi), ONone, ONone, ns. split; [reflexivity|]. split; [|split; [reflexivity|left; split; auto; split; auto; split; auto;
         intros y0 n0 Hy0 _ _; rewrite E in Hy0; apply in_app_or in Hy0; apply in_or_app; destruct Hy0; auto; right; right; auto]].
       f_equal. f_equal.
       - unfold kabs. simpl. f_equal.
@@ -1532,7 +1532,7 @@ Proof.
       * auto.
       * auto.
     + rewrite NS. unfold r_notify. simpl. unfold hsubs. rewrite H1. reflexivity.
-  - left. split; auto. split; auto. intros z nz Hz NZ RZ. exfalso. apply RZ.
+  - left. split; auto. split; auto. split; auto. intros z nz Hz NZ RZ. exfalso. apply RZ.
     destruct (sg_node _ _ _ _ _ G z Hz) as [m [kz [M1 [_ [M3 _]]]]]. rewrite NZ in M1. inversion M1; subst. eapply RONE; eauto.
 Qed.
 
